@@ -161,3 +161,29 @@ Fixpoint mon_c09_fold (step : nat) (steps outs : list val) (prev_nonce : N) : li
   end.
 
 Definition mon_C09 (c impl : val) : val := VL (mon_c09_fold 0 (vL c) (vL impl) 0%N).
+
+(* C08 preconditions on what the hub emits: a set the contract can work with has no zero-address
+   member (ecrecover returns address(0) for a malformed signature, so anybody could "sign" for it) and
+   is stored in the order in which its attestation will be stored (Sort order), since the relayer
+   presents the attested set as the contract's current set. *)
+Definition k_c08_zero := VB (map Z.to_N [67;48;56;47;122;101;114;111;45;97;100;100;114;101;115;115;45;109;101;109;98;101;114]%Z).            (* C08/zero-address-member *)
+Definition k_c08_unsorted := VB (map Z.to_N [67;48;56;47;115;101;116;45;110;111;116;45;105;110;45;97;116;116;101;115;116;101;100;45;111;114;100;101;114]%Z). (* C08/set-not-in-attested-order *)
+Definition is_zero_addr (a : bytes) : bool :=
+  match a with
+  | 48%N :: 120%N :: r => forallb (N.eqb 48) r
+  | _ => forallb (N.eqb 0) a
+  end.
+Fixpoint mon_c08_sig_fold (step : nat) (outs : list val) : list val :=
+  match outs with
+  | [] => []
+  | out :: outs' =>
+      let latest := vnth 1 (vnth 2 out) in
+      (match vL latest with
+       | [] => []
+       | _ =>
+           let ls := dec_signers (vnth 2 latest) in
+           (if existsb (fun m => is_zero_addr (sg_addr m)) ls then [VL [k_c08_zero; VI (Z.of_nat step)]] else [])
+           ++ (if sorted_b ls then [] else [VL [k_c08_unsorted; VI (Z.of_nat step)]])
+       end) ++ mon_c08_sig_fold (S step) outs'
+  end.
+Definition mon_C08_sigset (c impl : val) : val := VL (mon_c08_sig_fold 0 (vL impl)).
